@@ -208,11 +208,17 @@ RRN = {
     decreases ctx_limit(old(context)) - old(context).question_stack@.len(), 0int,""",
     "entry": L.BU + " broadcast use group_chain, lemma_chain_concat_b, lemma_merged_nil_b, lemma_nil_concat_b, axiom_rr_vec_len, axiom_dn_vec_len, axiom_names_wf, group_local_first, lemma_alias_concat_b; let ghost mut tried__: Set<DomainName> = Set::empty();",
     "anchors": [{"after_re": r"if let Some\(ip\) =\s*resolve_hostname_to_ip\(", "at": "before", "proof": """proof {
+    assert(cur__.contains(candidate)); // [C07:only_nameservers_of_the_delegation_in_use_are_asked]
     assert(resolve_candidates_locally || tried__.contains(candidate)); // [C07:a_nameserver_address_is_sought_recursively_only_after_its_local_look_up_failed]
     if resolve_candidates_locally { tried__ = tried__.insert(candidate); }
-}"""}],
+}"""},
+        # cur__: the nameserver names of the delegation in use (the starting point, then each referral followed)
+        {"after_re": r"let mut candidate_hostnames = [^;]*;", "proof": "let ghost mut cur__: Seq<DomainName> = candidate_hostnames@;"},
+        {"after_re": r"Err\((?:mut )?delegation\) => \{", "proof": "proof { cur__ = delegation.hostnames@; }"}],
     "loops": {"0": {"kw": "while", "spec": """        invariant
             context.question_stack@ == old(context).question_stack@.push(*question), same_env(old(context), &*context),
+            forall|i: int| 0 <= i < candidate_hostnames@.len() ==> cur__.contains(#[trigger] candidate_hostnames@[i]), // [C07:only_nameservers_of_the_delegation_in_use_are_asked]
+            forall|i: int| 0 <= i < next_candidate_hostnames@.len() ==> cur__.contains(#[trigger] next_candidate_hostnames@[i]), // [C07:only_nameservers_of_the_delegation_in_use_are_asked]
             old(context).question_stack@.len() < ctx_limit(old(context)), !old(context).question_stack@.contains(*question),
             old(context).r.upstream_dns_port == configured_port(),
             // the cases in which local data is final have returned before the first upstream exchange
@@ -312,6 +318,7 @@ pub struct ExSocketAddr(std::net::SocketAddr);""")
 
 
 CANARIES = [
+    {"name": "old_candidates_kept_behind_the_nameservers_of_a_referral", "file": REC, "old": "                            candidate_hostnames = delegation.hostnames;", "new": "                            let mut referred = delegation.hostnames;\n                            candidate_hostnames.append(&mut referred);"},
     {"name": "soa_dropped_when_the_continuation_holds_records", "file": REC, "old": "            let soa_rr = resolved.soa_rr().cloned();\n            rrs.append(&mut resolved.rrs());", "new": "            let soa_all = resolved.soa_rr().cloned();\n            let mut inner_rrs = resolved.rrs();\n            let soa_rr = if inner_rrs.is_empty() { soa_all } else { None };\n            rrs.append(&mut inner_rrs);"},
     {"name": "slow_candidates_tried_first", "file": REC, "old": "        let mut resolve_candidates_locally = true;\n", "new": "        let mut resolve_candidates_locally = false;\n"},
     {"name": "new_referral_skips_the_local_phase", "file": REC, "old": "                                Vec::with_capacity(candidate_hostnames.len());\n                            resolve_candidates_locally = true;", "new": "                                Vec::with_capacity(candidate_hostnames.len());"},
